@@ -346,6 +346,110 @@ def find(tree, qual):
     return node
 
 
+
+class TrAcc(TrProc):
+    """string-building methods (`x = "<Tag"`, `if c: x += ...`, `return x`) and small table look-ups:
+    additionally `x += e`, `not e`, dict literals with constant keys / values read with `in` and `d[k]`,
+    module-level string constants, `self.__str__()` / `self.<method>()` of already generated methods, `str(e)`,
+    `self.nodeid_type is NodeIdType.X` (compared through the member's value as the source declares it)."""
+
+    def __init__(self, self_fields=None, consts=None, enum_values=None, methods=None):
+        TrProc.__init__(self, self_fields)
+        self.consts = consts or {}
+        self.enum_values = enum_values or {}
+        self.methods = methods or {}
+        self.litdicts = set()
+
+    def mutated(self, stmts):
+        out = []
+        for s in stmts:
+            if isinstance(s, ast.AugAssign) and isinstance(s.target, ast.Name):
+                out.append(s.target.id)
+            elif isinstance(s, ast.Assign) and len(s.targets) == 1 and isinstance(s.targets[0], ast.Name):
+                out.append(s.targets[0].id)
+            elif isinstance(s, ast.If):
+                out += self.mutated(s.body) + self.mutated(s.orelse)
+            else:
+                out += TrProc.mutated(self, [s])
+        return list(dict.fromkeys(out))
+
+    def expr(self, e):
+        if isinstance(e, ast.Constant) and e.value == "":
+            return [], "([] : Str)"
+        if isinstance(e, ast.Name) and e.id in self.consts:
+            return [], chars(self.consts[e.id])
+        if isinstance(e, ast.Dict) and all(isinstance(k, ast.Constant) and isinstance(k.value, str) for k in e.keys) \
+                and all(isinstance(v, ast.Constant) and isinstance(v.value, int) and not isinstance(v.value, bool) for v in e.values):
+            return [], "([" + ", ".join("(%s, (%d : Int))" % (chars(k.value), v.value) for k, v in zip(e.keys, e.values)) + "] : List (Str × Int))"
+        if isinstance(e, ast.UnaryOp) and isinstance(e.op, ast.Not):
+            b, t = self.expr(e.operand)
+            return b, "(!%s)" % t
+        if isinstance(e, ast.Compare) and len(e.ops) == 1 and isinstance(e.ops[0], ast.Is) and isinstance(e.comparators[0], ast.Attribute) \
+                and isinstance(e.comparators[0].value, ast.Name) and e.comparators[0].value.id == "NodeIdType" \
+                and isinstance(e.left, ast.Attribute) and isinstance(e.left.value, ast.Name) and e.left.value.id == "self" and e.left.attr == "nodeid_type":
+            member = e.comparators[0].attr
+            if member not in self.enum_values:
+                raise Unsupported("NodeIdType." + member)
+            return [], "(decide ((pyEnumValue self.ty) = %s))" % chars(self.enum_values[member])
+        if isinstance(e, ast.Compare) and len(e.ops) == 1 and isinstance(e.ops[0], ast.In) and isinstance(e.comparators[0], ast.Name) \
+                and e.comparators[0].id in self.litdicts:
+            b, a = self.expr(e.left)
+            return b, "(pyLitHas %s %s)" % (e.comparators[0].id, a)
+        if isinstance(e, ast.Subscript) and isinstance(e.value, ast.Name) and e.value.id in self.litdicts:
+            b, k = self.expr(e.slice)
+            t = self.fresh()
+            return b + [(t, "pyLitGet %s %s" % (e.value.id, k))], t
+        if isinstance(e, ast.Call) and isinstance(e.func, ast.Attribute) and isinstance(e.func.value, ast.Name) and e.func.value.id == "self" \
+                and not e.args and not e.keywords:
+            if e.func.attr not in self.methods:
+                raise Unsupported("self.%s()" % e.func.attr)
+            t = self.fresh()
+            return [(t, "%s self" % self.methods[e.func.attr])], t
+        if isinstance(e, ast.Call) and isinstance(e.func, ast.Name) and e.func.id == "str" and len(e.args) == 1 and not e.keywords:
+            b, a = self.expr(e.args[0])
+            return b, "(pyFormat %s)" % a
+        return TrProc.expr(self, e)
+
+    def note(self, s):
+        if isinstance(s, ast.Assign) and len(s.targets) == 1 and isinstance(s.targets[0], ast.Name) and isinstance(s.value, ast.Dict):
+            self.litdicts.add(s.targets[0].id)
+
+    def block(self, stmts, ind):
+        if stmts:
+            self.note(stmts[0])
+        return TrProc.block(self, stmts, ind)
+
+    def stmts(self, body, ind, final):
+        pad = "  " * ind
+        if body:
+            self.note(body[0])
+            s, rest = body[0], body[1:]
+            if isinstance(s, ast.Expr) and isinstance(s.value, ast.Constant):
+                return self.stmts(rest, ind, final)
+            if isinstance(s, ast.AugAssign) and isinstance(s.op, ast.Add) and isinstance(s.target, ast.Name):
+                b, t = self.expr(s.value)
+                return self.binds(b, "%slet %s := %s ++ %s\n" % (pad, s.target.id, s.target.id, t) + self.stmts(rest, ind, final), ind)
+        return TrProc.stmts(self, body, ind, final)
+
+
+def module_consts(tree):
+    out = {}
+    for n in tree.body:
+        if isinstance(n, ast.Assign) and len(n.targets) == 1 and isinstance(n.targets[0], ast.Name) \
+                and isinstance(n.value, ast.Constant) and isinstance(n.value.value, str):
+            out[n.targets[0].id] = n.value.value
+    return out
+
+
+def enum_members(tree, cls):
+    out = {}
+    for n in find(tree, cls).body:
+        if isinstance(n, ast.Assign) and len(n.targets) == 1 and isinstance(n.targets[0], ast.Name) \
+                and isinstance(n.value, ast.Constant) and isinstance(n.value.value, str):
+            out[n.targets[0].id] = n.value.value
+    return out
+
+
 def main():
     repo = sys.argv[1]
     vp = ast.parse(open(os.path.join(repo, "opcua_tools", "value_parser.py"), encoding="utf-8").read())
@@ -386,6 +490,22 @@ def main():
             out.append("/-- `UAGraph._get_namespace_list` (a static method): the dict is an association list in insertion order -/")
             out.append("def get_namespace_list (%s : List (Int × Str)) : Except PyErr (List Str) :=" % a[0])
             out.append(tr.stmts(f.body, 1, ".error .typeError"))
+            nid = {"namespace": "ns", "value": "ident", "nodeid_type": "ty"}
+            consts, enums = module_consts(dt), enum_members(dt, "NodeIdType")
+            meths = {"__str__": "nodeid_str", "nodeid_type_value_to_int": "nodeid_type_value_to_int"}
+            out.append("")
+            f = find(dt, "UANodeId.nodeid_type_value_to_int")
+            out.append("/-- `UANodeId.nodeid_type_value_to_int` -/")
+            out.append("def nodeid_type_value_to_int (self : NodeId) : Except PyErr Int :=")
+            out.append(TrAcc(nid, consts, enums, meths).block(f.body, 1))
+            f = find(dt, "UANodeId.xml_encode")
+            out.append("/-- `UANodeId.xml_encode` -/")
+            out.append("def nodeid_xml_encode (self : NodeId) (%s : Bool) : Except PyErr Str :=" % f.args.args[1].arg)
+            out.append(TrAcc(nid, consts, enums, meths).stmts(f.body, 1, ".error .typeError"))
+            f = find(dt, "UANodeId.json_encode")
+            out.append("/-- `UANodeId.json_encode` -/")
+            out.append("def nodeid_json_encode (self : NodeId) : Except PyErr Str :=")
+            out.append(TrAcc(nid, consts, enums, meths).stmts(f.body, 1, ".error .typeError"))
     except Unsupported as u:
         print("UNSUPPORTED: %s" % u, file=sys.stderr)
         sys.exit(3)
